@@ -2420,3 +2420,91 @@ func c12r9(c *RC) {
 	c.Check(rpcAt >= 0 && !setBefore && (setAfter || deferredSet), fq+"|worker-released-before-the-task-is-lost", pr.Pos(fn.Body.Pos()),
 		"(*sliceMachine).Discard marks the task lost before (or without) the Worker.Discard call on the path where the machine owns it: an evaluation woken by that broadcast can resubmit the task while the worker still holds it as OK — Worker.Run returns success without recomputing, the late Worker.Discard deletes the output, and the driver keeps a task that is OK with no data behind it (its consumers are lost until they fail with \"too many tries\")")
 }
+
+// C16-R11: an invocation's arguments are rewritten for transport in a copy.
+//
+// addInvocation replaces *Result arguments by invocationRefs in the invocation
+// it stores for transport.  The invocation arrives by value, but its Args
+// slice shares a backing array with the task's invocation and with the slice
+// the user handed to Session.Run: writing X.Args[i] in place changes the
+// caller's own data (a second Run with the same slice fails the typecheck,
+// concurrent runs race on it).  Decided: in every function of exec that
+// assigns an element of the Args of a by-value execInvocation parameter, an
+// earlier top-level statement re-points that Args at a fresh slice (make, or
+// append to a nil slice).  (*worker).Compile is not concerned: it rewrites the
+// invocation it decoded itself.
+func c16r11(c *RC) {
+	pr := c.P
+	n := 0
+	for _, fn := range pr.FuncsIn("exec") {
+		if fn.Body == nil || fn.Parent != nil || fn.Type.Params == nil {
+			continue
+		}
+		// by-value execInvocation parameters
+		params := map[string]bool{}
+		for _, f := range fn.Type.Params.List {
+			for _, nm := range f.Names {
+				if o := fn.Pkg.Info.Defs[nm]; o != nil && short(namedQName(o.Type())) == "exec.execInvocation" {
+					params[nm.Name] = true
+				}
+			}
+		}
+		if len(params) == 0 {
+			continue
+		}
+		fq := fn.QName()
+		inspectNoLit(fn.Body, func(nd ast.Node) bool {
+			as, ok := nd.(*ast.AssignStmt)
+			if !ok {
+				return true
+			}
+			for _, l := range as.Lhs {
+				ix, ok := l.(*ast.IndexExpr)
+				if !ok {
+					continue
+				}
+				se, ok := ix.X.(*ast.SelectorExpr)
+				if !ok || se.Sel.Name != "Args" {
+					continue
+				}
+				id, ok := se.X.(*ast.Ident)
+				if !ok || !params[id.Name] {
+					continue
+				}
+				n++
+				fresh := false
+				for _, st := range fn.Body.List {
+					if st.Pos() >= as.Pos() {
+						break
+					}
+					ra, ok := st.(*ast.AssignStmt)
+					if !ok || len(ra.Lhs) != 1 || len(ra.Rhs) != 1 || nospace(ra.Lhs[0]) != nospace(se) {
+						continue
+					}
+					rhs := ast.Unparen(ra.Rhs[0])
+					if rid, ok := rhs.(*ast.Ident); ok {
+						if d, ok := newLinEnv(pr, fn).defs[fn.Pkg.Info.Uses[rid]]; ok {
+							rhs = ast.Unparen(d)
+						}
+					}
+					if k, ok := rhs.(*ast.CallExpr); ok {
+						switch expr(k.Fun) {
+						case "make":
+							fresh = true
+						case "append":
+							if len(k.Args) >= 1 {
+								if tv, ok := fn.Pkg.Info.Types[k.Args[0]]; ok && (tv.IsNil() || strings.HasSuffix(expr(k.Args[0]), "(nil)")) {
+									fresh = true
+								}
+							}
+						}
+					}
+				}
+				c.Check(fresh, fq+"|arguments-rewritten-in-a-copy", pr.Pos(as.Pos()),
+					strings.TrimPrefix(fq, "exec.")+" writes "+expr(l)+" in place: the by-value invocation's Args shares its backing array with the task's invocation and with the slice the caller passed to Session.Run, so the caller's own arguments turn into invocationRefs — a second Run with the same slice fails the typecheck, and concurrent runs race on the array")
+			}
+			return true
+		})
+	}
+	c.Floor("in-place writes of a by-value invocation's Args", n, 1)
+}
